@@ -245,7 +245,7 @@ NOINL void canonical(Ctx& c)
     }
     // conversions to other patterns of the same rank with compatible static extents (at most 4 per source pattern, those with
     // the same rank_dynamic() at other positions first; C19_ext runs every pair at the extents level)
-    for_each_target<Idx, GE, 4>([&]<typename F, std::size_t GF>() {
+    for_each_target<Idx, GE, VF_CONV_MAP>([&]<typename F, std::size_t GF>() {
         if (!shape_matches<F>(c.shape)) { return; }
         using MF = typename L::template mapping<F>;
         static_assert(std::is_constructible_v<MF, M const&>);
